@@ -15,7 +15,7 @@ func Registry() map[string]*sim.Scenario {
 	for _, s := range extra {
 		m[s.ID] = s
 	}
-	for _, s := range []*sim.Scenario{C01, C02, C03, C04, C06, C07, C08, C09, C10, C12, C14, C16} {
+	for _, s := range []*sim.Scenario{C01, C02, C03, C04, C06, C07, C08, C09, C10, C12, C14, C15, C16} {
 		m[s.ID] = s
 	}
 	return m
